@@ -267,6 +267,7 @@ def headReact (role : Role) (H : Hdr) (st' : St σ) (o : FOut) (block : Option B
     | none => (.invalid, st')
   | .connErr c => connErr st' c
   | .resetStreamErr r c => (.errStream c, { st' with env := { st'.env with rst := first st'.env.rst r } })
+  | .streamErr c => (.errStream c, st')
 
 theorem pollHead_frame (role : Role) (S : Src σ) (H : Hdr) (st : St σ) (f : Frame) (s' : σ)
     (hn : S.pollNext st.src = (.frame f, s')) :
